@@ -6,7 +6,7 @@ from checks import poolrun
 
 def oracle(log):
     msgs = []
-    cap0 = None; last_cap = None; live = 0; kind = None; cyc = None
+    cap0 = None; last_cap = None; live = 0; kind = None; cyc = None; prevq = None
     for ln in log.split('\n'):
         parts = ln.split('|')
         if len(parts) < 3 or '=' not in parts[0]:
@@ -29,6 +29,17 @@ def oracle(log):
                 cyc['rels'] += 1
             elif lhs[0] not in ('d',):
                 cyc['allocs'] += 5      # anything else in between: not a plain cycle
+        if lhs and lhs[0] == 'coll' and rhs[:1] == ['ok']:
+            kind = 'coll'
+        if kind == 'coll' and lhs:
+            toks = parts[1].split()
+            if lhs[0] == 'rs' and rhs[:1] == ['reserved'] and 'I' not in toks:
+                msgs.append('reserve(%s, %s) took memory from the block (capacity_left now %s) and handed nothing to the pool: that capacity is lost' % (lhs[1], lhs[2], caps.get('cap')))
+            if lhs[0] == 'aa' and lhs[1] == '1' and prevq and prevq[0] == lhs[2] and prevq[1] >= 1 and (toks or rhs[:1] != ['ok']):
+                msgs.append('allocate_array(1, %s) did not come from the list although pool_capacity_left(%s) was %d: %s' % (lhs[2], lhs[2], prevq[1], ' '.join(rhs[:2]) + ' |' + parts[1][:60]))
+            prevq = (lhs[1], int(caps['pcap'])) if lhs[0] == 'q' and 'pcap' in caps else None
+            if lhs[0] == 'an' and 'I' in toks and 'U+' in toks[toks.index('I'):]:
+                msgs.append('%s asked the block source for memory although the list had just been given nodes (%s)' % (' '.join(lhs), parts[1].strip()[:80]))
         if kind != 'pool' or not lhs:
             continue
         cap_before = last_cap
